@@ -73,6 +73,9 @@ def main():
                         results[c]['tail'] = outc[-500:]
                 row['checks'] = results
                 row['caught'] = any(v['rc'] == 1 for v in results.values())
+            prev = meta.get('evaluation', {})
+            if 'suite_with_patch' not in row and 'suite_with_patch' in prev:
+                row['suite_with_patch'] = prev['suite_with_patch']      # confirmed in an earlier evaluation of the same patch
             meta['evaluation'] = row
             json.dump(meta, open(os.path.join(d, 'meta.json'), 'w'), indent=1)
             print(name, json.dumps(row)[:600], flush=True)
